@@ -7,8 +7,8 @@ ASSUME = ["user actions give the file they write a current modification time (lo
           "projection (internal/project) and the independent signature verifier are trusted"]
 
 
-WIDE = "Edit,Touch,DeleteArt,Truncate,StripKey,Replace,MakeCsr,EditProfile,Expire"
-ISSUER = "Edit,Touch,DeleteArt,Truncate,StripKey,Replace,MakeCsr,SetIssuer"      # + the user edits the issuer relation
+WIDE = "Edit,Touch,DeleteArt,Truncate,StripKey,ResaveArt,Replace,MakeCsr,EditProfile,Expire"
+ISSUER = "Edit,Touch,DeleteArt,Truncate,StripKey,ResaveArt,Replace,MakeCsr,SetIssuer"      # + the user edits the issuer relation
 FULL = WIDE + ",SetIssuer,RemoveConfig,AddConfig"
 CONFIG = "Edit,DeleteArt,StripKey,SetIssuer,RemoveConfig,AddConfig"               # + configurations deleted and put back
 
